@@ -28,7 +28,8 @@ typedef struct obj T;
 struct guard { mptr ptr; };
 struct tlfl { size_t number_of_elements; struct obj* head; };           /* thread_local_free_list */
 struct obj pool[NP]; struct obj fresh_obj;
-struct tlfl g_tl; int global_free_list;
+struct flist { mptr head; };                                           /* free_list: concurrent_ptr<T,N> head */
+struct tlfl g_tl; int global_free_list; struct flist g_fl;
 size_t in_max_local;                               /* Traits::thread_local_free_list_size, symbolic */
 #define max_local_elements in_max_local
 #define XV_SIZEOF_T ((size_t)16)
@@ -53,7 +54,7 @@ static int idx_of(struct obj* o) { return o ? (int)(o - pool) : -1; }
 
 /* ---------------- ghost ---------------- */
 int my_refs[NP];                 /* references this thread holds on object k (increments minus decrements it performed, plus what it started with) */
-unsigned n_inc[NP], n_dec[NP], n_fsub[NP], n_destroy[NP], n_push[NP]; _Bool dec_true[NP], destroyed0[NP]; unsigned rc0[NP];
+unsigned n_inc[NP], n_dec[NP], n_fsub[NP], n_destroy[NP], n_push[NP]; _Bool dec_true[NP], in_destroyed0[NP]; unsigned in_rc0[NP];
 uint64_t destroy_clock[NP], push_clock[NP], last_inc_clock[NP], last_dec_clock[NP];
 mptr* mon_src; unsigned mon_src_loads; mptr mon_src_last; uint64_t mon_src_last_clock; int mon_src_last_order;
 unsigned n_other_rmw; int mon_last_inc_order;
@@ -71,13 +72,15 @@ static _Bool lfrc_decrement_refcnt(struct obj* self);
 static void lfrc_fl_push(struct obj* node);
 static _Bool lfrc_tl_push(struct tlfl* self, struct obj* node);
 static struct obj* lfrc_tl_pop(struct tlfl* self);
+static _Bool real_decrement(struct obj* o);
+static void real_push_to_free_list(struct obj* o);
 #ifdef REAL_DEC
-#define O_decrement_refcnt(o) lfrc_decrement_refcnt(&(o))
+#define O_decrement_refcnt(o) real_decrement(&(o))
 #else
 #define O_decrement_refcnt(o) stub_decrement(&(o))
 #endif
 #ifdef REAL_FLPUSH
-#define O_push_to_free_list(o) lfrc_fl_push(&(o))     /* header: push_to_free_list() { global_free_list.push(this); } */
+#define O_push_to_free_list(o) real_push_to_free_list(&(o))     /* header: push_to_free_list() { global_free_list.push(this); } */
 #else
 #define O_push_to_free_list(o) stub_push_to_free_list(&(o))
 #endif
@@ -87,8 +90,27 @@ static struct obj* lfrc_tl_pop(struct tlfl* self);
 #define TL_pop(l) lfrc_tl_pop(&(l))
 #define FL_add_nodes(l, a, b) stub_add_nodes((a), (b))
 #define FL_add_nodes_self(s, a, b) stub_add_nodes((a), (b))
+static struct obj* lfrc_fl_pop(struct flist* self);
+#ifdef REAL_FLPOP
+#define FL_pop(l) lfrc_fl_pop(&g_fl)
+#else
 #define FL_pop(l) stub_fl_pop()
+#endif
 #define XV_RAW_NEW(sz) raw_new(sz)
+/* free_list::pop: local guard object, acquire_guard(), guard accessors (detail::guard_ptr::get / operator-> / operator MarkedPtr) */
+static void lfrc_g_ctor(struct guard* self, mptr p);
+static void lfrc_g_acquire(struct guard* self, mptr* p_ref, int order);
+static void lfrc_g_move_assign(struct guard* self, struct guard* p_ref);
+static void lfrc_g_dtor(struct guard* self);
+int extra_refs[NP];          /* references held by this thread through guards other than the one an inner call works on */
+#define G_get(g) mp_get((g).ptr)
+#define GG_DEREF(g) mp_get((g).ptr)
+#define MarkedPtr(g) ((g).ptr)
+#define XV_LOCAL_CTOR(g) lfrc_g_ctor(&(g), 0)
+#define XV_LOCAL_DTOR(g) lfrc_g_dtor(&(g))
+#define XV_ASSIGN_ACQUIRE_GUARD(g, src, mo) do { struct guard xv_t; lfrc_g_ctor(&xv_t, 0); \
+    { int xv_k = idx_of(mp_get((g).ptr)); if (xv_k >= 0) extra_refs[xv_k]++; lfrc_g_acquire(&xv_t, &(src), (mo)); if (xv_k >= 0) extra_refs[xv_k]--; } \
+    lfrc_g_move_assign(&(g), &xv_t); lfrc_g_dtor(&xv_t); } while (0)
 #define XV_OBJ_OF_HEADER(h) (h)
 
 /* ---------------- environment (INT) ---------------- */
@@ -98,6 +120,7 @@ void xv_env(void);
 #endif
 
 /* ---------------- loop cuts ---------------- */
+mptr nf0[NP];
 unsigned in_rc; mptr in_self, in_src; _Bool in_same; unsigned in_op;
 static _Bool refs_match_guard(struct guard* g);
 static _Bool seq_state_initial(struct guard* g);
@@ -111,24 +134,45 @@ static _Bool seq_state_initial(struct guard* g);
 #define XV_HAVOC_DEC old_refcnt = nondet_uint(); new_refcnt = nondet_uint(); dec_cas_exp = nondet_uint(); dec_cas_des = nondet_uint(); dec_cas_last_ok = nondet_bool(); \
                      dec_cas_order = nondet_int(); xv_clock = nondet_u64(); XV_ASSUME(xv_clock < ((uint64_t)1 << 60))
 static void havoc_acq(struct guard* g);
+/* free_list::pop */
+int fl_owned = -1; _Bool fl_cleared, fl_des_matches; unsigned n_claim_clear[NP]; int fl_last_nf_obj; mptr fl_last_nf_val;
+static _Bool flpop_inv(struct guard* g);
+static void havoc_flpop(struct guard* g);
+#define XV_INV_FLPOP (flpop_inv(&guard))
+#define XV_HAVOC_FLPOP havoc_flpop(&guard) /* guard, self->head (through the environment), counts and next_free reached via O_ref_count / O_next_free, ghost state */
+/* add_nodes */
+mptr in_head; struct obj* addn_last; _Bool addn_cas_ok_seen, addn_cas_last_ok; mptr addn_cas_exp, addn_cas_des, addn_tail_at_cas; int addn_cas_order; unsigned addn_stores_other;
+#ifdef XV_INT
+#define XV_INV_ADDN (!addn_cas_ok_seen && addn_stores_other == 0)
+#else
+#define XV_INV_ADDN (!addn_cas_ok_seen && addn_stores_other == 0 && self->head == in_head && old == in_head)
+#endif
+#define XV_HAVOC_ADDN old = nondet_word(); O_next_free((*last)) = nondet_uptr(); addn_cas_last_ok = nondet_bool(); addn_cas_exp = nondet_uptr(); addn_cas_des = nondet_uptr(); \
+                      addn_tail_at_cas = nondet_uptr(); addn_cas_order = nondet_int(); xv_clock = nondet_u64(); XV_ASSUME(xv_clock < ((uint64_t)1 << 60))
 #define XV_HAVOC_ACQ havoc_acq(self) /* writes self->ptr, the counts reached through O_ref_count(*GDEREF(q)), and all ghost state */
 
 #include "lowered.h"
 
 /* ================= monitors, stubs ================= */
 static void mon_load(void* a, uint64_t v, int o) {
+  for (unsigned k = 0; k < NP; k++) if (a == (void*)&pool[k].next_free) { fl_last_nf_obj = (int)k; fl_last_nf_val = (mptr)v; }
   if (a == (void*)mon_src) { mon_src_loads++; mon_src_last = (mptr)v; mon_src_last_clock = xv_clock; mon_src_last_order = o; }
 }
-static void mon_store(void* a, uint64_t v, int o) { }
+static void mon_store(void* a, uint64_t v, int o) {
+  for (unsigned k = 0; k < NP; k++) if (a == (void*)&pool[k].next_free && &pool[k] != addn_last) addn_stores_other++;
+}
 static void mon_rmw(void* a, uint64_t oldv, uint64_t newv, int o) {
   for (unsigned k = 0; k < NP; k++) if (a == (void*)&pool[k].ref_count) {
     unsigned d = (unsigned)newv - (unsigned)oldv;
     if (d == RefCountInc) { n_inc[k]++; my_refs[k]++; last_inc_clock[k] = xv_clock; mon_last_inc_order = o; }
     else if (d == 0u - RefCountInc) { n_fsub[k]++; my_refs[k]--; }
+    else if (d == 0u - RefCountClaimBit) { n_claim_clear[k]++; if ((int)k == fl_owned) fl_cleared = 1; }
     else n_other_rmw++;
   }
 }
 static void mon_cas(void* a, uint64_t e, uint64_t d, _Bool ok, int o) {
+  if (a == (void*)&g_fl.head) { addn_cas_exp = (mptr)e; addn_cas_des = (mptr)d; addn_cas_last_ok = ok; addn_cas_order = o; addn_tail_at_cas = addn_last ? addn_last->next_free : 0; if (ok) addn_cas_ok_seen = 1;
+    fl_des_matches = (fl_last_nf_obj >= 0 && fl_last_nf_obj == idx_of(mp_get((mptr)e)) && fl_last_nf_val == (mptr)d); if (ok) fl_owned = idx_of(mp_get((mptr)e)); }
   if (dec_obj && a == (void*)&dec_obj->ref_count) { dec_cas_exp = (unsigned)e; dec_cas_des = (unsigned)d; dec_cas_last_ok = ok; dec_cas_order = o; if (ok) dec_cas_ok_seen = 1; }
 }
 /* contract of decrement_refcnt (proved by runs decrement / decrement_int): count part - 1; returns true iff the count part was 1 and the
@@ -154,6 +198,22 @@ static void stub_push_to_free_list(struct obj* o) {
   XV_OBL("lfrc.reset.destroy_iff_claimed", k >= 0 && claim_pending == k && CLAIMED(o->ref_count) && o->destroyed);
   n_push[k]++; push_clock[k] = ++xv_clock; claim_pending = -1;
 }
+/* composed runs: the real callee, plus the same ghost bookkeeping / call-site obligations as the contract stub */
+static _Bool real_decrement(struct obj* o) {
+  int k = idx_of(o);
+  XV_OBL("lfrc.decrement.holds_reference", k >= 0 && COUNT(o->ref_count) >= 1 && my_refs[k] >= 1);
+  XV_OBL("lfrc.reset.destroy_iff_claimed", claim_pending == -1);
+  dec_obj = o; in_rc = o->ref_count; dec_cas_ok_seen = 0;
+  _Bool r = lfrc_decrement_refcnt(o);
+  n_dec[k]++; my_refs[k]--; if (r) { dec_true[k] = 1; claim_pending = k; } last_dec_clock[k] = ++xv_clock;
+  return r;
+}
+static void real_push_to_free_list(struct obj* o) {
+  int k = idx_of(o);
+  XV_OBL("lfrc.reset.destroy_iff_claimed", k >= 0 && claim_pending == k && CLAIMED(o->ref_count) && o->destroyed);
+  n_push[k]++; push_clock[k] = ++xv_clock; claim_pending = -1;
+  lfrc_fl_push(o);
+}
 static void stub_add_nodes(struct obj* a, struct obj* b) { n_add_nodes++; add_first = a; add_last = b; }
 unsigned in_pop_kind;
 static struct obj* stub_fl_pop(void) {
@@ -166,12 +226,12 @@ static struct obj* stub_fl_pop(void) {
 static struct obj* raw_new(size_t sz) { n_raw_new++; fresh_obj.ref_count = nondet_uint(); fresh_obj.destroyed = nondet_bool(); fresh_obj.next_free = nondet_uptr(); return &fresh_obj; }
 
 static _Bool refs_match_guard(struct guard* g) {
-  for (unsigned k = 0; k < NP; k++) if (my_refs[k] != (mp_get(g->ptr) == &pool[k] ? 1 : 0)) return 0;
+  for (unsigned k = 0; k < NP; k++) if (my_refs[k] != (mp_get(g->ptr) == &pool[k] ? 1 : 0) + extra_refs[k]) return 0;
   return 1;
 }
 static _Bool seq_state_initial(struct guard* g) {
   if (g->ptr != in_self || mon_src_loads != 0) return 0;
-  for (unsigned k = 0; k < NP; k++) if (pool[k].ref_count != rc0[k] || pool[k].destroyed != destroyed0[k] || n_inc[k] || n_dec[k] || n_destroy[k] || n_push[k] || dec_true[k]) return 0;
+  for (unsigned k = 0; k < NP; k++) if (pool[k].ref_count != in_rc0[k] || pool[k].destroyed != in_destroyed0[k] || n_inc[k] || n_dec[k] || n_destroy[k] || n_push[k] || dec_true[k]) return 0;
   return 1;
 }
 static void havoc_acq(struct guard* g) {
@@ -191,6 +251,21 @@ static void havoc_acq(struct guard* g) {
   *mon_src = nondet_word();
 #endif
 }
+static _Bool flpop_inv(struct guard* g) {
+  if (claim_pending != -1 || fl_owned != -1 || fl_cleared) return 0;
+  for (unsigned k = 0; k < NP; k++) if (extra_refs[k] != 0 || n_claim_clear[k] != 0 || my_refs[k] != (mp_get(g->ptr) == &pool[k] ? 1 : 0)) return 0;
+#ifndef XV_INT
+  if (!seq_state_initial(g) || g_fl.head != in_head) return 0;
+  for (unsigned k = 0; k < NP; k++) if (pool[k].next_free != nf0[k]) return 0;
+#endif
+  return 1;
+}
+static void havoc_flpop(struct guard* g) {
+  havoc_acq(g);
+  fl_owned = nondet_int(); fl_cleared = nondet_bool(); fl_des_matches = nondet_bool(); fl_last_nf_obj = nondet_int(); fl_last_nf_val = nondet_uptr();
+  addn_cas_last_ok = nondet_bool(); addn_cas_exp = nondet_uptr(); addn_cas_des = nondet_uptr();
+  for (unsigned k = 0; k < NP; k++) { n_claim_clear[k] = nondet_uint(); XV_ASSUME(n_claim_clear[k] < (1u << 30)); if (my_refs[k] <= 0) pool[k].next_free = nondet_word(); }
+}
 #ifdef XV_INT
 void xv_env(void) {
   if (env_kind == 1) {
@@ -199,6 +274,19 @@ void xv_env(void) {
       if (claim_pending == (int)k) { pool[k].ref_count = nondet_uint() | RefCountClaimBit; continue; }   /* claimed by this thread: only stale increments/decrements of others */
       pool[k].ref_count = nondet_uint(); if (my_refs[k] <= 0) pool[k].destroyed = nondet_bool();
       XV_ASSUME(my_refs[k] <= 0 || COUNT(pool[k].ref_count) >= (unsigned)my_refs[k]);
+    }
+  }
+  if (env_kind == 3) g_fl.head = nondet_word();      /* add_nodes: other threads push and pop */
+  if (env_kind == 4) {                                /* free_list::pop: head, counts, next_free of nodes this thread does not guard */
+    g_fl.head = nondet_word();
+    for (unsigned k = 0; k < NP; k++) {
+      if (claim_pending == (int)k) { pool[k].ref_count = nondet_uint() | RefCountClaimBit; continue; }
+      unsigned w = nondet_uint();
+      if ((int)k == fl_owned) w = fl_cleared ? (w & ~RefCountClaimBit) : (w | RefCountClaimBit);     /* popped by this thread: only stale increments/decrements of others */
+      else if (mp_get(g_fl.head) == &pool[k]) w |= RefCountClaimBit;                                  /* rely: a node on the free list carries the claim bit */
+      pool[k].ref_count = w;
+      XV_ASSUME(my_refs[k] <= 0 || COUNT(pool[k].ref_count) >= (unsigned)my_refs[k]);
+      if (my_refs[k] <= 0 && (int)k != fl_owned) { pool[k].next_free = nondet_word(); pool[k].destroyed = nondet_bool(); }
     }
   }
   if (env_kind == 2) {         /* decrement_refcnt: the count of the object changes, this thread's reference stays */
@@ -212,16 +300,16 @@ struct guard ga, gb;
 static unsigned holders(unsigned k) { return (mp_get(ga.ptr) == &pool[k] ? 1u : 0u) + (mp_get(gb.ptr) == &pool[k] ? 1u : 0u); }
 static void reset_ghost(void) {
   for (unsigned k = 0; k < NP; k++) { n_inc[k] = n_dec[k] = n_fsub[k] = n_destroy[k] = n_push[k] = 0; dec_true[k] = 0; destroy_clock[k] = push_clock[k] = last_inc_clock[k] = last_dec_clock[k] = 0; }
-  mon_src = 0; mon_src_loads = 0; n_other_rmw = 0; dec_cas_ok_seen = 0; dec_cas_last_ok = 0; dec_obj = 0; claim_pending = -1; n_add_nodes = n_raw_new = n_fl_pop = 0; add_first = add_last = popped = 0; xv_clock = 1;
+  mon_src = 0; mon_src_loads = 0; n_other_rmw = 0; dec_cas_ok_seen = 0; dec_cas_last_ok = 0; dec_obj = 0; fl_owned = -1; fl_cleared = 0; fl_des_matches = 0; fl_last_nf_obj = -1; for (unsigned k = 0; k < NP; k++) { extra_refs[k] = 0; n_claim_clear[k] = 0; } addn_last = 0; addn_cas_ok_seen = addn_cas_last_ok = 0; addn_stores_other = 0; claim_pending = -1; n_add_nodes = n_raw_new = n_fl_pop = 0; add_first = add_last = popped = 0; xv_clock = 1;
 }
 /* objects with arbitrary count words, at least as many references as guards of this thread point to them; two guards */
 static void havoc_objects(_Bool use_a, _Bool use_b) {
   in_self = use_a ? nondet_word() : 0; in_src = use_b ? nondet_word() : 0; ga.ptr = in_self; gb.ptr = in_src;
   reset_ghost();
   for (unsigned k = 0; k < NP; k++) {
-    rc0[k] = nondet_uint(); destroyed0[k] = nondet_bool(); pool[k].ref_count = rc0[k]; pool[k].destroyed = destroyed0[k]; pool[k].next_free = nondet_uptr();
+    in_rc0[k] = nondet_uint(); in_destroyed0[k] = nondet_bool(); pool[k].ref_count = in_rc0[k]; pool[k].destroyed = in_destroyed0[k]; pool[k].next_free = nondet_uptr();
     my_refs[k] = (int)holders(k);
-    XV_ASSUME(COUNT(rc0[k]) >= holders(k) && COUNT(rc0[k]) < 0x7FFFFFF0u / RefCountInc);   /* assumption: fewer than 2^30 references per object */
+    XV_ASSUME(COUNT(in_rc0[k]) >= holders(k) && COUNT(in_rc0[k]) < 0x7FFFFFF0u / RefCountInc);   /* assumption: fewer than 2^30 references per object */
   }
   in_max_local = nondet_size(); g_tl.head = 0; g_tl.number_of_elements = 0;
 }
@@ -229,15 +317,15 @@ static unsigned spec_dec(unsigned old) { _Bool r = COUNT(old) == 1 && !CLAIMED(o
 static _Bool spec_dec_ret(unsigned old) { return COUNT(old) == 1 && !CLAIMED(old); }
 /* expected effect of one guard operation on object k: `dec` decrements first, then `inc` increments */
 static void check_obj(unsigned k, unsigned dec, unsigned inc) {
-  unsigned e = rc0[k]; _Bool claimed_now = 0;
+  unsigned e = in_rc0[k]; _Bool claimed_now = 0;
   for (unsigned i = 0; i < 2; i++) if (i < dec) { if (spec_dec_ret(e)) claimed_now = 1; e = spec_dec(e); }
   e += inc * RefCountInc;
   XV_OBL("lfrc.guard.algebra", pool[k].ref_count == e && n_dec[k] + n_fsub[k] == dec && n_inc[k] == inc && n_other_rmw == 0);
   XV_OBL("lfrc.guard.algebra", my_refs[k] == (int)holders(k));
   XV_OBL("lfrc.reset.destroy_iff_claimed", claim_pending == -1);
-  XV_OBL("lfrc.reset.destroy_iff_claimed", n_push[k] == (claimed_now ? 1u : 0u) && n_destroy[k] == ((claimed_now && !destroyed0[k]) ? 1u : 0u));
+  XV_OBL("lfrc.reset.destroy_iff_claimed", n_push[k] == (claimed_now ? 1u : 0u) && n_destroy[k] == ((claimed_now && !in_destroyed0[k]) ? 1u : 0u));
   XV_OBL("lfrc.reset.destroy_iff_claimed", !n_destroy[k] || destroy_clock[k] < push_clock[k]);
-  XV_OBL("lfrc.reset.destroy_iff_claimed", pool[k].destroyed == (destroyed0[k] || claimed_now));
+  XV_OBL("lfrc.reset.destroy_iff_claimed", pool[k].destroyed == (in_destroyed0[k] || claimed_now));
 }
 #define OBJ(w) idx_of(mp_get(w))
 
@@ -354,16 +442,16 @@ void h_g_reclaim(void) {
   havoc_objects(1, 1);
   unsigned k = nondet_uint(); XV_ASSUME(k < NP);
   /* requires: a non-empty guard's object is still reachable, i.e. it carries its initial reference besides those of the guards, and is reclaimed once */
-  if (OBJ(in_self) >= 0) { XV_ASSUME(COUNT(rc0[OBJ(in_self)]) >= holders((unsigned)OBJ(in_self)) + 1); my_refs[OBJ(in_self)]++; }
+  if (OBJ(in_self) >= 0) { XV_ASSUME(COUNT(in_rc0[OBJ(in_self)]) >= holders((unsigned)OBJ(in_self)) + 1); my_refs[OBJ(in_self)]++; }
   lfrc_g_reclaim(&ga);
   XV_OBL("lfrc.guard.algebra", ga.ptr == 0 && gb.ptr == in_src);
   /* the 'reachable' reference is dropped exactly once (fetch_sub), then the guard's own reference (reset) */
   XV_OBL("lfrc.reclaim.once", n_fsub[k] == (OBJ(in_self) == (int)k ? 1u : 0u) && n_dec[k] == (OBJ(in_self) == (int)k ? 1u : 0u));
   if (OBJ(in_self) == (int)k) {
-    unsigned e = spec_dec(rc0[k] - RefCountInc);
+    unsigned e = spec_dec(in_rc0[k] - RefCountInc);
     XV_OBL("lfrc.reclaim.once", pool[k].ref_count == e && my_refs[k] == (int)holders(k));
-    _Bool last = spec_dec_ret(rc0[k] - RefCountInc);
-    XV_OBL("lfrc.reset.destroy_iff_claimed", n_push[k] == (last ? 1u : 0u) && n_destroy[k] == ((last && !destroyed0[k]) ? 1u : 0u));
+    _Bool last = spec_dec_ret(in_rc0[k] - RefCountInc);
+    XV_OBL("lfrc.reset.destroy_iff_claimed", n_push[k] == (last ? 1u : 0u) && n_destroy[k] == ((last && !in_destroyed0[k]) ? 1u : 0u));
     if (last) XV_CANARY("g_reclaim.last"); else XV_CANARY("g_reclaim.still_guarded");
   } else check_obj(k, 0, 0);
   if (in_self == 0) XV_CANARY("g_reclaim.empty");
@@ -398,7 +486,7 @@ void h_g_acquire(void) {
   unsigned k = nondet_uint(); XV_ASSUME(k < NP);
   XV_OBL("lfrc.acquire.snapshot", ga.ptr == in_src && src_cell == in_src);
   if (OBJ(in_self) == (int)k && OBJ(in_src) == (int)k) {     /* re-acquiring the object already held: dropped first, then taken again */
-    unsigned e = spec_dec(rc0[k]) + RefCountInc;
+    unsigned e = spec_dec(in_rc0[k]) + RefCountInc;
     XV_OBL("lfrc.guard.algebra", pool[k].ref_count == e);
   } else check_obj(k, OBJ(in_self) == (int)k, OBJ(in_src) == (int)k);
 #endif
@@ -421,7 +509,7 @@ void h_g_acquire_if_equal(void) {
 #ifndef XV_INT
   unsigned k = nondet_uint(); XV_ASSUME(k < NP);
   XV_OBL("lfrc.acquire_if_equal.iff", r == (in_src == expected) && src_cell == in_src);
-  if (OBJ(in_self) == (int)k && r && OBJ(in_src) == (int)k) XV_OBL("lfrc.guard.algebra", pool[k].ref_count == spec_dec(rc0[k]) + RefCountInc);
+  if (OBJ(in_self) == (int)k && r && OBJ(in_src) == (int)k) XV_OBL("lfrc.guard.algebra", pool[k].ref_count == spec_dec(in_rc0[k]) + RefCountInc);
   else check_obj(k, OBJ(in_self) == (int)k, r && OBJ(in_src) == (int)k);
 #endif
   if (r && mp_get(ga.ptr)) XV_CANARY("g_aie.true"); if (r && !ga.ptr) XV_CANARY("g_aie.true_null"); if (!r && mp_get(in_self)) XV_CANARY("g_aie.false_drop");
@@ -434,16 +522,16 @@ void h_g_acquire_if_equal(void) {
 #ifndef L
 #define L 3
 #endif
-unsigned in_len; mptr nf0[NP];
+unsigned in_len;
 /* the thread-local list: in_len <= min(NP, L) nodes pool[0..in_len) linked in order through next_free; all carry the claim bit */
 static void build_local_list(void) {
   reset_ghost();
   in_max_local = nondet_size();
   in_len = nondet_uint(); XV_ASSUME(in_len <= NP && in_len <= L);
   for (unsigned k = 0; k < NP; k++) {
-    rc0[k] = nondet_uint(); destroyed0[k] = nondet_bool(); pool[k].ref_count = rc0[k]; pool[k].destroyed = destroyed0[k]; my_refs[k] = 0;
+    in_rc0[k] = nondet_uint(); in_destroyed0[k] = nondet_bool(); pool[k].ref_count = in_rc0[k]; pool[k].destroyed = in_destroyed0[k]; my_refs[k] = 0;
     pool[k].next_free = (k + 1 < in_len) ? mp_from_ptr(&pool[k + 1]) : (k < in_len ? 0 : nondet_uptr());
-    if (k < in_len) XV_ASSUME(CLAIMED(rc0[k]) && COUNT(rc0[k]) < 0x3FFFFFF0u);
+    if (k < in_len) XV_ASSUME(CLAIMED(in_rc0[k]) && COUNT(in_rc0[k]) < 0x3FFFFFF0u);
     nf0[k] = pool[k].next_free;
   }
   g_tl.head = in_len ? &pool[0] : 0; g_tl.number_of_elements = in_len;
@@ -457,7 +545,7 @@ void h_tl_push(void) {
   XV_OBL("lfrc.freelist.conserve", r == (in_len < in_max_local));
   if (r) XV_OBL("lfrc.freelist.conserve", g_tl.head == node && g_tl.number_of_elements == in_len + 1 && node->next_free == mp_from_ptr(in_len ? &pool[0] : 0));
   else XV_OBL("lfrc.freelist.conserve", g_tl.head == (in_len ? &pool[0] : 0) && g_tl.number_of_elements == in_len && node->next_free == nf0[in_len]);
-  XV_OBL("lfrc.freelist.conserve", pool[k].ref_count == rc0[k] && (k == in_len || pool[k].next_free == nf0[k]));
+  XV_OBL("lfrc.freelist.conserve", pool[k].ref_count == in_rc0[k] && (k == in_len || pool[k].next_free == nf0[k]));
   if (r) XV_CANARY("tl_push.stored"); else XV_CANARY("tl_push.full");
 }
 void h_tl_pop(void) {
@@ -468,10 +556,10 @@ void h_tl_pop(void) {
   if (r) {
     XV_OBL("lfrc.freelist.conserve", g_tl.head == (in_len > 1 ? &pool[1] : 0) && g_tl.number_of_elements == in_len - 1 && r->next_free == 0);
     /* the re-used node gets exactly one more reference and loses the claim bit */
-    XV_OBL("lfrc.new.reinit_count", !CLAIMED(r->ref_count) && COUNT(r->ref_count) == COUNT(rc0[0]) + 1 && (rc0[0] != RefCountClaimBit || r->ref_count == RefCountInc));
-    XV_OBL("lfrc.freelist.conserve", k == 0 || (pool[k].ref_count == rc0[k] && pool[k].next_free == nf0[k]));
+    XV_OBL("lfrc.new.reinit_count", !CLAIMED(r->ref_count) && COUNT(r->ref_count) == COUNT(in_rc0[0]) + 1 && (in_rc0[0] != RefCountClaimBit || r->ref_count == RefCountInc));
+    XV_OBL("lfrc.freelist.conserve", k == 0 || (pool[k].ref_count == in_rc0[k] && pool[k].next_free == nf0[k]));
     XV_CANARY("tl_pop.node"); if (in_len == L || in_len == NP) XV_CANARY("tl_pop.longest");
-  } else { XV_OBL("lfrc.freelist.conserve", g_tl.head == 0 && g_tl.number_of_elements == 0 && pool[k].ref_count == rc0[k]); XV_CANARY("tl_pop.empty"); }
+  } else { XV_OBL("lfrc.freelist.conserve", g_tl.head == 0 && g_tl.number_of_elements == 0 && pool[k].ref_count == in_rc0[k]); XV_CANARY("tl_pop.empty"); }
 }
 void h_tl_dtor(void) {
   build_local_list();
@@ -479,7 +567,7 @@ void h_tl_dtor(void) {
   unsigned k = nondet_uint(); XV_ASSUME(k < NP);
   if (in_len == 0) { XV_OBL("lfrc.freelist.conserve", n_add_nodes == 0); XV_CANARY("tl_dtor.empty"); }
   else { XV_OBL("lfrc.freelist.conserve", n_add_nodes == 1 && add_first == &pool[0] && add_last == &pool[in_len - 1]); XV_CANARY("tl_dtor.hands_over"); }
-  XV_OBL("lfrc.freelist.conserve", pool[k].ref_count == rc0[k] && pool[k].next_free == nf0[k] && pool[k].destroyed == destroyed0[k]);
+  XV_OBL("lfrc.freelist.conserve", pool[k].ref_count == in_rc0[k] && pool[k].next_free == nf0[k] && pool[k].destroyed == in_destroyed0[k]);
 }
 void h_fl_push(void) {
   build_local_list(); XV_ASSUME(in_len < NP);
@@ -489,8 +577,62 @@ void h_fl_push(void) {
   _Bool local = in_max_local > 0 && in_len < in_max_local;
   XV_OBL("lfrc.freelist.conserve", local ? (g_tl.head == node && g_tl.number_of_elements == in_len + 1 && n_add_nodes == 0)
                                          : (g_tl.head == (in_len ? &pool[0] : 0) && g_tl.number_of_elements == in_len && n_add_nodes == 1 && add_first == node && add_last == node));
-  XV_OBL("lfrc.freelist.conserve", node->ref_count == rc0[in_len]);
+  XV_OBL("lfrc.freelist.conserve", node->ref_count == in_rc0[in_len]);
   if (local) XV_CANARY("fl_push.local"); else XV_CANARY("fl_push.global");
+}
+/* free_list::add_nodes(first, last): first..last is a chain of nodes owned by the caller */
+void h_add_nodes(void) {
+  build_local_list(); XV_ASSUME(in_len >= 1);
+  in_head = nondet_word(); g_fl.head = in_head;
+  struct obj* first = &pool[0]; struct obj* last = &pool[in_len - 1]; addn_last = last;
+#ifdef XV_INT
+  env_kind = 3;
+#endif
+  lfrc_fl_add_nodes(&g_fl, first, last);
+#ifdef XV_INT
+  env_kind = 0;
+#endif
+  unsigned k = nondet_uint(); XV_ASSUME(k < NP);
+  XV_OBL("lfrc.freelist.push_links", addn_cas_last_ok && addn_cas_ok_seen && addn_cas_des == mp_from_ptr(first) && addn_tail_at_cas == addn_cas_exp);
+  XV_OBL("lfrc.sync.orders", XV_IS_RELEASE(addn_cas_order));
+#ifndef XV_INT
+  XV_OBL("lfrc.freelist.push_links", g_fl.head == mp_from_ptr(first) && last->next_free == in_head && addn_cas_exp == in_head);
+#endif
+  XV_OBL("lfrc.freelist.push_links", addn_stores_other == 0 && pool[k].ref_count == in_rc0[k] && (&pool[k] == last || pool[k].next_free == nf0[k]));
+  if (in_len == 1) XV_CANARY("add_nodes.single"); else XV_CANARY("add_nodes.chain");
+}
+/* free_list::pop, global half: the thread-local list is empty; the global list holds in_len nodes pool[0..in_len) */
+void h_fl_pop(void) {
+  build_local_list();
+  g_tl.head = 0; g_tl.number_of_elements = 0;
+  in_head = in_len ? mp_from_ptr(&pool[0]) : 0; g_fl.head = in_head; in_self = 0; mon_src = &g_fl.head;
+#ifdef XV_INT
+  env_kind = 4;
+#endif
+  struct obj* r = lfrc_fl_pop(&g_fl);
+#ifdef XV_INT
+  env_kind = 0;
+#endif
+  unsigned k = nondet_uint(); XV_ASSUME(k < NP);
+  XV_OBL("lfrc.freelist.pop_owns", my_refs[k] == (r == &pool[k] ? 1 : 0) && claim_pending == -1 && extra_refs[k] == 0);
+  if (r) {
+    int kr = idx_of(r);
+    XV_OBL("lfrc.freelist.pop_owns", addn_cas_last_ok && fl_owned == kr && mp_get(addn_cas_exp) == r && fl_des_matches);
+    XV_OBL("lfrc.freelist.pop_owns", n_claim_clear[kr] == 1 && !CLAIMED(r->ref_count) && COUNT(r->ref_count) >= 1 && r->next_free == 0);
+    XV_OBL("lfrc.freelist.pop_owns", n_claim_clear[k] == (k == (unsigned)kr ? 1u : 0u));
+  } else {
+    XV_OBL("lfrc.freelist.pop_owns", mon_src_loads >= 1 && mp_get(mon_src_last) == 0 && fl_owned == -1 && n_claim_clear[k] == 0);
+  }
+#ifndef XV_INT
+  XV_OBL("lfrc.freelist.pop_owns", r == (in_len ? &pool[0] : 0) && g_fl.head == (in_len ? nf0[0] : in_head));
+  if (r) XV_OBL("lfrc.new.reinit_count", r->ref_count == in_rc0[0] + RefCountInc - RefCountClaimBit);
+  if (!(r && k == 0)) XV_OBL("lfrc.freelist.conserve", pool[k].ref_count == in_rc0[k] && pool[k].next_free == nf0[k]);
+  XV_OBL("lfrc.freelist.conserve", n_destroy[k] == 0 && n_push[k] == 0 && g_tl.head == 0 && n_add_nodes == 0);
+#endif
+  if (r) XV_CANARY("fl_pop.node"); else XV_CANARY("fl_pop.empty");
+#ifdef XV_INT
+  if (r && n_dec[idx_of(r)] > 0) XV_CANARY("fl_pop.after_retry");
+#endif
 }
 void h_op_new(void) {
   havoc_objects(0, 0); in_pop_kind = nondet_uint(); XV_ASSUME(in_pop_kind < 2);
@@ -498,16 +640,54 @@ void h_op_new(void) {
   struct obj* r = lfrc_op_new(sz);
   XV_OBL("lfrc.new.reinit_count", r != 0 && n_fl_pop == 1);
   if (in_pop_kind == 0) { XV_OBL("lfrc.new.reinit_count", r == &fresh_obj && n_raw_new == 1 && r->ref_count == RefCountInc); XV_CANARY("op_new.fresh"); }
-  else { XV_OBL("lfrc.new.reinit_count", r == popped && n_raw_new == 0 && !CLAIMED(r->ref_count) && COUNT(r->ref_count) >= 1 && r->ref_count == rc0[idx_of(r)]); XV_CANARY("op_new.reused"); }
+  else { XV_OBL("lfrc.new.reinit_count", r == popped && n_raw_new == 0 && !CLAIMED(r->ref_count) && COUNT(r->ref_count) >= 1 && r->ref_count == in_rc0[idx_of(r)]); XV_CANARY("op_new.reused"); }
 }
 void h_op_delete(void) {
   havoc_objects(1, 0);
   unsigned k0 = nondet_uint(); XV_ASSUME(k0 < NP);
   /* requires: the caller (delete expression, after ~T) owns one reference; the destructor has run */
-  XV_ASSUME(COUNT(rc0[k0]) >= holders(k0) + 1 && !CLAIMED(rc0[k0])); my_refs[k0]++; pool[k0].destroyed = 1; destroyed0[k0] = 1;
+  XV_ASSUME(COUNT(in_rc0[k0]) >= holders(k0) + 1 && !CLAIMED(in_rc0[k0])); my_refs[k0]++; pool[k0].destroyed = 1; in_destroyed0[k0] = 1;
   lfrc_op_delete(&pool[k0]);
   unsigned k = nondet_uint(); XV_ASSUME(k < NP);
   check_obj(k, k == k0, 0);
   XV_OBL("lfrc.reset.destroy_iff_claimed", n_destroy[k] == 0);
   if (n_push[k0]) XV_CANARY("op_delete.freed"); else XV_CANARY("op_delete.still_guarded");
+}
+
+/* composed: reset() with the real decrement_refcnt, free_list::push and thread_local_free_list::push (SEQ) */
+void h_g_reset_composed(void) {
+  havoc_objects(1, 1);
+  lfrc_g_reset(&ga);
+  unsigned k = nondet_uint(); XV_ASSUME(k < NP);
+  XV_OBL("lfrc.guard.algebra", ga.ptr == 0 && gb.ptr == in_src);
+  check_obj(k, OBJ(in_self) == (int)k, 0);
+  int ko = OBJ(in_self);
+  if (ko >= 0 && n_push[ko]) {
+    _Bool local = in_max_local > 0;
+    XV_OBL("lfrc.freelist.conserve", local ? (g_tl.head == &pool[ko] && g_tl.number_of_elements == 1 && n_add_nodes == 0 && pool[ko].next_free == 0)
+                                           : (g_tl.head == 0 && n_add_nodes == 1 && add_first == &pool[ko] && add_last == &pool[ko]));
+    if (local) XV_CANARY("g_reset_composed.local"); else XV_CANARY("g_reset_composed.global");
+  } else { XV_OBL("lfrc.freelist.conserve", n_add_nodes == 0 && g_tl.head == 0); if (ko >= 0) XV_CANARY("g_reset_composed.shared"); }
+}
+
+/* composed: operator new on top of the real free_list::pop (thread-local and global half), SEQ */
+unsigned in_where;
+void h_op_new_composed(void) {
+  build_local_list(); in_where = nondet_uint(); XV_ASSUME(in_where < 2);      /* 0: the nodes are in the thread-local list, 1: in the global list */
+  if (in_where == 1) { g_tl.head = 0; g_tl.number_of_elements = 0; in_head = in_len ? mp_from_ptr(&pool[0]) : 0; } else in_head = 0;
+  g_fl.head = in_head; in_self = 0; mon_src = &g_fl.head;
+  struct obj* r = lfrc_op_new(XV_SIZEOF_T);
+  _Bool reuse = in_len > 0 && (in_where == 1 || in_max_local > 0);
+  unsigned k = nondet_uint(); XV_ASSUME(k < NP);
+  if (reuse) {
+    XV_OBL("lfrc.new.reinit_count", r == &pool[0] && n_raw_new == 0 && r->ref_count == in_rc0[0] + RefCountInc - RefCountClaimBit && !CLAIMED(r->ref_count) && r->next_free == 0);
+    XV_OBL("lfrc.freelist.conserve", in_where == 1 ? (g_fl.head == nf0[0] && g_tl.head == 0) : (g_tl.head == (in_len > 1 ? &pool[1] : 0) && g_tl.number_of_elements == in_len - 1 && g_fl.head == in_head));
+    if (in_where) XV_CANARY("op_new_composed.global"); else XV_CANARY("op_new_composed.local");
+  } else {
+    XV_OBL("lfrc.new.reinit_count", r == &fresh_obj && n_raw_new == 1 && r->ref_count == RefCountInc);
+    XV_OBL("lfrc.freelist.conserve", g_fl.head == in_head && g_tl.number_of_elements == (in_where ? 0 : in_len));
+    if (in_len > 0) XV_CANARY("op_new_composed.local_disabled"); else XV_CANARY("op_new_composed.fresh");
+  }
+  if (!(reuse && k == 0)) XV_OBL("lfrc.freelist.conserve", pool[k].ref_count == in_rc0[k] && pool[k].next_free == nf0[k]);
+  XV_OBL("lfrc.freelist.conserve", n_destroy[k] == 0 && n_push[k] == 0 && n_add_nodes == 0 && my_refs[k] == ((reuse && in_where == 1 && k == 0) ? 1 : 0));
 }
